@@ -9,6 +9,7 @@
 import MoreExec.Proofs.Timeout.NeverEarly
 import MoreExec.Proofs.Timeout.ExactlyOnce
 import MoreExec.Proofs.Timeout.Sleep
+import MoreExec.Proofs.Timeout.Outcome
 
 namespace MoreExec.Timeout
 
@@ -99,5 +100,39 @@ def demoRun : List Act :=
 
 example : (runFrom step init demoRun).map (fun s => (s.attempts, s.jumps, s.deadlines)) =
     some ([(0, 5, 6)], [(0, 5)], [(0, 5)]) := by decide +kernel
+
+/-- **Outcome kept.**  Once the future of a submission is done — finished with its delegate's outcome, or cancelled — nothing any
+thread does afterwards changes that: in every continuation of every run it is still done, and it is cancelled iff it was.  In
+particular a future that completes before its deadline is never turned into a cancelled one by the timeout thread (whose `cancel()`
+on a done future is a no-op, `cancel_of_done_noop`), nor does a delegate finishing after a time-out cancellation "un-cancel" it. -/
+theorem C09_outcome_kept (as bs : List Act) (m s : St) (h1 : runFrom step init as = some m) (h2 : runFrom step m bs = some s)
+    (k : Fid) (hd : (getFut m k).done = true) :
+    (getFut s k).done = true ∧ (getFut s k).fcancelled = (getFut m k).fcancelled := by
+  have hm : OInv m := invariant_run step OInv OInv_step init OInv_init as m h1
+  -- carry (OInv, done, cancelled-bit) along the continuation
+  have := invariant_run step
+    (fun x => OInv x ∧ (getFut x k).done = true ∧ (getFut x k).fcancelled = (getFut m k).fcancelled)
+    (fun x a x' hx hst =>
+      ⟨OInv_step x a x' hx.1 hst, (kept_step x a x' hx.1 hst k hx.2.1).1,
+       (kept_step x a x' hx.1 hst k hx.2.1).2.trans hx.2.2⟩)
+    m ⟨hm, hd, rfl⟩ bs s h2
+  exact ⟨this.2.1, this.2.2⟩
+
+/-- the timeout thread only ever selects futures that are not done for a cancel attempt -/
+theorem C09_overdue_not_done (s : St) : ∀ j ∈ overdue s, (getFut s j.fut).done = false ∧ j.deadline < s.now :=
+  overdue_not_done s
+
+/-! Non-vacuity of `C09_outcome_kept`: the callable of submission 0 (time-out 5) starts and finishes before the deadline; the future is
+done, not cancelled; the timeout thread then wakes up at the deadline, partitions (nothing overdue: the job is done) and sleeps on. -/
+def keptRun : List Act :=
+  let c (e : Ev) : Act := ⟨0, .ev e⟩
+  let ct : Act := ⟨0, .tau⟩
+  let p (e : Ev) : Act := ⟨2, .ev e⟩
+  let pt : Act := ⟨2, .tau⟩
+  [ ⟨1, .ev .wstart⟩,
+    c (.callSubmit 5), ct, c (.dsubmit 0), c (.daddcbIn 0 false), c (.daddcbOut 0), ct, ct, ct, c .setE, ct, c (.retSubmit 0),
+    p (.drun 0), p (.dcomplete 0), pt, pt ]
+example : (runFrom step init keptRun).map (fun s => ((getFut s 0).done, (getFut s 0).fcancelled, (getFut s 0).dstate)) =
+    some (true, false, DState.finished) := by decide +kernel
 
 end MoreExec.Timeout
